@@ -331,6 +331,7 @@ pub fn build(tier: Tier) -> CheckDef {
     spaces.push(Box::new(super::c04::ShortBuffers { maxlen: 2 }));
     spaces.push(Box::new(super::c04::ByteWalks));
     spaces.push(Box::new(super::c04::FarOffsets));
+    spaces.push(Box::new(super::c04::ParseAtInts));
     CheckDef {
         prop: "C10",
         level: "model_checking",
